@@ -37,7 +37,10 @@ RULE = ('history = up to 6 constant definitions (gin.constant over modules {a,b,
         'nested list/tuple/dict levels with up to two sibling values each; probe bindings (3 '
         'probes x 3 parameters) whose value is %macro, @macro/gin.macro(), %constant-suffix, the '
         'list of all unambiguous suffixes, or @macro/gin.macro, wrapped likewise; optional parse of '
-        'an ambiguous suffix after each text; optional closing text binding every referenced but '
+        'an ambiguous suffix after each text; 0-2 gin.clear_config() calls before a quarter of '
+        'the texts (plain constant values are lists, dicts and user objects, never atomic for '
+        'copy/deepcopy; every unambiguous suffix is also read through query_parameter after '
+        'each clear and each observation); optional closing text binding every referenced but '
         'unbound macro; probes called after observed parses and twice after the last; '
         'gin.finalize(). Non-trivial = a checked macro use precedes a definition of that macro, '
         'or a later parse redefines an already used macro, or >=2 constants share a suffix and a '
@@ -53,6 +56,10 @@ ASSUMPTIONS = [
     'a query that is the complete name of one constant and a proper suffix of another is not '
     'used, and defining x.K after K may be accepted or rejected (exact-match precedence is C08)',
     'all constants are defined before the first text is parsed (precondition P)',
+    'gin.clear_config() (default clear_constants=False, documented to keep constants) empties '
+    'the model of macros and bindings and leaves the constants -- the same objects -- defined',
+    'gin.query_parameter(<unambiguous constant suffix>) is read as another way of evaluating '
+    '%name (as C08 does); it must return the very object too',
     'an enum whose members are partly duplicates leaves the table in an unspecified state: such '
     'cases are out of domain unless the first member is already rejected',
     'invalid names are near-misses of dotted identifiers (empty, stray/duplicate dots, digit-led '
@@ -74,7 +81,8 @@ FLOORS = {'nontrivial': (0.3, _H), 'nt:use-before-def': (0.15, _H),
           'const:enum': (0.08, _H), 'finalize:rejected-unbound': (0.05, _H),
           'finalize:rejected-unevaluated': (0.03, _H), 'finalize:accepted': (0.2, _H),
           'finalize:offender-only-nested': (0.03, _H), 'via:file-or-include': (0.2, _H),
-          'observed-mid-history': (0.1, _H)}
+          'observed-mid-history': (0.1, _H), 'clear_config': (0.15, _H),
+          'const:identity-after-clear': (0.05, _H), 'const:query_parameter': (0.3, _H)}
 TECHNIQUE = ('model-based property testing: Hypothesis-generated parse/define/use histories against '
              'a last-writer-wins reference map, identity checks for constants, plus an exhaustive '
              'sweep of ordered constant-name pairs')
@@ -207,6 +215,8 @@ def _parse_op(draw):
           'cut': [draw(_small), draw(_small)],
           'observe': draw(st.booleans()),
           'skip': draw(st.integers(0, 3)) == 0,
+          # number of gin.clear_config() calls (constants are kept) made before this text
+          'clear': draw(st.sampled_from([0, 0, 0, 0, 0, 0, 1, 2])),
           'ambig': draw(st.none() | st.none() | st.tuples(_small, st.integers(0, 2)).map(list))}
 
 
@@ -282,6 +292,7 @@ class Model:
     self.binds = {}        # (probe index, param) -> concrete value node
     self.consts = {}       # complete constant name -> object
     self.pos = 0
+    self.clears = 0        # clear_config() calls so far
     self.uses = {}         # macro name -> [(pos, parse index)]
     self.defs = {}         # macro name -> [(pos, parse index)]
 
@@ -483,6 +494,64 @@ class Matcher:
 
 
 # ----------------------------------------------------------------------------- interpreter
+class Payload:
+  """A user object used as a constant value (equal-looking copies are not the constant)."""
+
+  def __init__(self, name, serial):
+    self.name = name
+    self.serial = serial
+    self.items = [name]
+
+  def __repr__(self):
+    return f'Payload({self.name!r}, {self.serial})'
+
+
+def _const_value(name, serial):
+  # none of these is atomic for copy.copy / copy.deepcopy: a copy is a different object
+  if serial % 3 == 0:
+    return ['const', name, serial]
+  if serial % 3 == 1:
+    return {'const': name, 'serial': serial, 'nested': [name]}
+  return Payload(name, serial)
+
+
+def _clear(model, labels, flags):
+  """gin.clear_config() with its default clear_constants=False: bindings and macros go,
+  constants stay -- the very objects."""
+  flags.update(_nt_flags(model, flags['checked']()))
+  gin.clear_config()
+  model.macros.clear()
+  model.binds.clear()
+  model.uses.clear()
+  model.defs.clear()
+  model.clears += 1
+  labels.add('clear_config')
+  for q, n in model.ok_queries():
+    got = gin.query_parameter(q)
+    require(got is model.consts[n], 'constant-identity',
+            lambda: f'after {model.clears} clear_config(): query_parameter({q!r}) returned '
+                    f'{got!r} (id {id(got)}), not the object defined as {n!r}: '
+                    f'{model.consts[n]!r} (id {id(model.consts[n])})')
+
+
+def _nt_flags(model, checked):
+  use_before_def = any(u[0] < d[0] for m in checked for u in model.uses.get(m, ())
+                       for d in model.defs.get(m, ()))
+  redefined_later = any(
+      len(model.defs.get(m, ())) >= 2 and
+      any(d[1] > u[1] and d[0] > model.defs[m][0][0] for u in model.uses.get(m, ())
+          for d in model.defs[m])
+      for m in checked)
+  res = {}
+  if use_before_def:
+    res['nt:use-before-def'] = True
+  if redefined_later:
+    res['nt:redefined-in-later-parse'] = True
+  if any(len(v) >= 2 for v in model.defs.values()):
+    res['macro:redefined'] = True
+  return res
+
+
 def _define_constants(case, model, labels):
   serial = itertools.count()
   for op in case['consts']:
@@ -498,7 +567,7 @@ def _define_constants(case, model, labels):
                       f'gin.constant({op[1]!r}, ...) returned normally')
     if kind == 'c':
       name = op[1]
-      obj = ['const', name, next(serial)]
+      obj = _const_value(name, next(serial))
       hits = c_match(names, name)
       extends = [n for n in names if name.endswith('.' + n)]
       try:
@@ -616,6 +685,14 @@ def _observe(model, seen, labels, when, stats):
     stats['checked_macros'] |= m.checked_macros
     stats['checked_consts'] += m.checked_consts
     stats['calls'] += 1
+    if m.checked_consts and model.clears:
+      labels.add('const:identity-after-clear')
+  for q, n in model.ok_queries():
+    got = gin.query_parameter(q)
+    require(got is model.consts[n], 'constant-identity',
+            lambda: f'{when}: query_parameter({q!r}) returned {got!r} (id {id(got)}), not the '
+                    f'object defined as {n!r}: {model.consts[n]!r} (id {id(model.consts[n])})')
+    labels.add('const:query_parameter')
 
 
 def check_case(case):
@@ -628,6 +705,7 @@ def check_case(case):
   _define_constants(case, model, labels)
   seen = {}
   stats = {'checked_macros': set(), 'checked_consts': 0, 'calls': 0}
+  flags = {'checked': lambda: stats['checked_macros']}   # + non-trivial flags kept across clears
   ambiguous_rejected = 0
   tmpdir = tempfile.mkdtemp(prefix='c05-')
   fileno = itertools.count()
@@ -636,6 +714,8 @@ def check_case(case):
     if not 1 <= len(parses) <= 4:
       raise OutOfDomain('1-4 parses')
     for k, op in enumerate(parses):
+      for _ in range(op.get('clear', 0) or 0):
+        _clear(model, labels, flags)
       lines = []
       for stmt in op['stmts']:
         kind = stmt[0]
@@ -739,13 +819,9 @@ def check_case(case):
 
   # ---- labels / non-trivial --------------------------------------------------------------
   checked = stats['checked_macros']
-  use_before_def = any(u[0] < d[0] for m in checked for u in model.uses.get(m, ())
-                       for d in model.defs.get(m, ()))
-  redefined_later = any(
-      len(model.defs.get(m, ())) >= 2 and
-      any(d[1] > u[1] and d[0] > model.defs[m][0][0] for u in model.uses.get(m, ())
-          for d in model.defs[m])
-      for m in checked)
+  flags.update(_nt_flags(model, checked))
+  use_before_def = bool(flags.get('nt:use-before-def'))
+  redefined_later = bool(flags.get('nt:redefined-in-later-parse'))
   cnames = sorted(model.consts)
   shared = any(len(c_match(cnames, q)) >= 2 for n in cnames for q in suffixes(n))
   shared_used = shared and (stats['checked_consts'] > 0 or ambiguous_rejected > 0)
@@ -755,7 +831,7 @@ def check_case(case):
     labels.add('nt:redefined-in-later-parse')
   if shared_used:
     labels.add('nt:shared-suffix')
-  if any(len(v) >= 2 for v in model.defs.values()):
+  if flags.get('macro:redefined'):
     labels.add('macro:redefined')
   if any('/' in m for m in checked):
     labels.add('macro:scoped-name-checked')
@@ -784,7 +860,7 @@ def _sweep_pairs(tier):
           'consts': [['c', x], ['c', y]],
           'parses': [{'via': 'str', 'stmts': [['allconst', 0, 0]], 'cut': [0, 0],
                       'observe': False, 'ambig': [-1, 0]},
-                     {'via': 'str', 'stmts': [['allconst', 1, 1]], 'cut': [0, 0],
+                     {'via': 'str', 'stmts': [['allconst', 1, 1]], 'cut': [0, 0], 'clear': 1,
                       'observe': False, 'ambig': [-1, 2]}],
           'sweep': True,
           'unev': False,
